@@ -133,7 +133,10 @@ func cmdSelftest(repo string, only string) int {
 		}
 		tree, err := scratchCopy(repo, filepath.Join(ce.Dir, "patch.diff"))
 		if err != nil {
-			fmt.Printf("SELFTEST-SKIP %s: %v\n", filepath.Base(ce.Dir), err)
+			// a corpus entry that no longer applies to the tree says nothing about the checks: it must be
+			// ported (tools/verify_on_head.sh) or retired, so it counts as unexpected
+			fmt.Printf("SELFTEST-STALE %s: %v\n", filepath.Base(ce.Dir), err)
+			bad++
 			continue
 		}
 		for _, p := range props {
